@@ -156,6 +156,18 @@ Theorem ss_binary_fractions_sum : forall fun1 fun2 (e : env),
 Proof. exact Tie.ss_binary_fractions_sum. Qed.
 Print Assumptions ss_binary_fractions_sum.
 
+Theorem ss_binary_lambda_of_stored_fractions : forall fun1 fun2 (e : env),
+    e "LOG_10" <> 0 -> e "ss_ptr.total_moles" <> 0 ->
+    wp fun1 fun2 ss_binary_body e (fun e1 _ =>
+      let x0 := e1 "ss_ptr.ss_comps[0].fraction_x" in
+      let x1 := e1 "ss_ptr.ss_comps[1].fraction_x" in
+      (x0 = 1 - x1 \/ (x0 = e "ss_ptr.ss_comps[0].moles" / e "ss_ptr.total_moles"
+                       /\ x1 = e "ss_ptr.ss_comps[1].moles" / e "ss_ptr.total_moles")) /\
+      e1 "ss_ptr.ss_comps[0].log10_lambda" * e "LOG_10" = gugg1 (e "ss_ptr.a0") (e "ss_ptr.a1") x1 /\
+      e1 "ss_ptr.ss_comps[1].log10_lambda" * e "LOG_10" = gugg2 (e "ss_ptr.a0") (e "ss_ptr.a1") x0 x1).
+Proof. exact Tie.ss_binary_lambda_of_stored_fractions. Qed.
+Print Assumptions ss_binary_lambda_of_stored_fractions.
+
 (* the executable checker applied to what the implementation reports is sound for the property *)
 Theorem check_hetero_sound : forall c : hcase, case_ok c = true -> hetero_valid c.
 Proof. exact SpecProofs.case_ok_sound. Qed.
